@@ -171,6 +171,22 @@ def HistFresh : HState → List HOp → Prop
   | _, [] => True
   | s, h :: hs => ArgsFresh s h.op ∧ HistFresh (hstep s h) hs
 
+/-- `e` (an Element handed to a call) sits in the container `n'` as a direct child with its
+    stored parent pointer designating the container: for a List through the ListSlot that holds
+    it (the slot is listed by the List, points to it, and holds exactly `e`, which points to the
+    slot); for an Array / MultiValue / mapping directly -/
+def PlacedIn (n' : Node) (e : Node) : Prop :=
+  match n'.kind with
+  | .list => ∃ slot ∈ n'.kids, slot.parent = some n'.id ∧ slot.kids = [e.withParent (some slot.id)]
+  | .array | .multi => e.withParent (some n'.id) ∈ n'.kids
+  | .dict | .sparse => ∃ key, (e.withParent (some n'.id)).withKey key ∈ n'.kids
+  | _ => False
+
+/-- the call returned normally -/
+def noExc : Out → Prop
+  | .exc _ => False
+  | _ => True
+
 /-- **C08 for histories** (stored-pointer clause): from any well-parented tree, after any sequence
     of list-protocol and dict-protocol calls applied to any of its elements — with plain values or with
     internally well-parented Element arguments — every node's stored parent chain is exactly its
